@@ -832,7 +832,8 @@ var kC16Args = run.NewKind("c16.args", func(c *run.Ctx, t c16ArgsCase) *run.Fail
 		// the bound values behave like the same values written as literals under operations that tell
 		// representations apart (only compared with the literal-binding run below)
 		query = "[" + strings.Join(append([]string{"$ARGS.positional", "$ARGS.named"}, vars...), ", ") + "] | map([type, (try del(.[0]) catch \"E\"), (try (.[0] |= empty) catch \"E\"), (try delpaths([[0]]) catch \"E\"), (try (. + []) catch \"E\"), " +
-			"(try (.[1:] |= .) catch \"E\"), (try to_entries catch \"E\"), (try del(.[]) catch \"E\"), (try (.[] |= .) catch \"E\"), (. == []), (. == {}), length?, (try (.[0] = 1) catch \"E\"), (try setpath([\"a\"]; 1) catch \"E\"), (try ([paths] | length) catch \"E\")])"
+			"(try (.[1:] |= .) catch \"E\"), (try to_entries catch \"E\"), (try del(.[]) catch \"E\"), (try (.[] |= .) catch \"E\"), (. == []), (. == {}), length?, (try (.[0] = 1) catch \"E\"), (try setpath([\"a\"]; 1) catch \"E\"), (try ([paths] | length) catch \"E\"), (try del(.nosuchname) catch \"E\"), (try delpaths([[\"nosuchname\"]]) catch \"E\"), (try (.nosuchname |= empty) catch \"E\"), (try del(.nosuchname, .other) catch \"E\"), (try del(.[5]) catch \"E\"), (try with_entries(.) catch \"E\")])" +
+			", ($ARGS | del(.named.nosuchname), del(.positional[7]), (.named.nosuchname |= empty), delpaths([[\"named\", \"q\"], [\"positional\", 5]]), del(.named[]), del(.positional[]), (.named |= with_entries(.)), (.positional |= map(.)), del(.named.nosuchname.deeper?))"
 	default:
 		query = "[" + strings.Join(append([]string{"$ARGS.named", "$ARGS.positional"}, vars...), ", ") + "]"
 		want = []string{run.Canon(append([]any{named, positional}, varVals...))}
